@@ -344,6 +344,35 @@ def bounded_index(n, fam, seen=None):
                 return None
             rs.append(r_)
         return "; ".join(sorted(set(rs))) if rs else None
+    if n.get("k") == "Call" and "fn" in n and len(seen) < 12:
+        # a private helper returning a position (`fn skip_object_type(chars, start) -> usize`): every value it can return is one
+        fx_ = fam.fx
+        tgt = fx_.by_dp.get(n["fn"].get("dp"))
+        hb = fx_.bodies.get(tgt) if tgt else None
+        if hb is not None and hb["krate"] == "proguard" and hb.get("kind") in ("Fn", "AssocFn") and not hb.get("reachable_pub") \
+                and ("fnret", tgt) not in seen and (n.get("ty") == "usize"):
+            fam2 = family_of(fx_, hb)
+            seen2 = seen | {("fnret", tgt)}
+            results = []
+            body_ = F.strip(hb["body"])
+            t_ = body_
+            while t_.get("k") == "Block" and t_.get("tail") is not None:
+                t_ = F.strip(t_["tail"])
+            if t_.get("k") == "Block":
+                return None         # no tail value (ends in a statement): not a plain value function
+            results.append(t_)
+            for x_ in F.walk(hb["body"]):
+                if x_.get("k") == "Return":
+                    if x_.get("e") is None:
+                        return None
+                    results.append(x_["e"])
+            rs = []
+            for e_ in results:
+                r_ = bounded_index(e_, fam2, seen2)
+                if r_ is None:
+                    return None
+                rs.append(r_)
+            return "result of private helper %s: %s" % (short_fn(tgt), "; ".join(sorted(set(rs))))
     if n.get("k") in ("Var", "Upvar"):
         vid = n["id"]
         if vid in seen:
@@ -355,7 +384,7 @@ def bounded_index(n, fam, seen=None):
         reasons = []
         for path, expr, how in srcs:
             if how == "param":
-                r = closure_param_is_index(n, fam)
+                r = closure_param_is_index(n, fam) or fn_param_is_index(n, fam, seen)
             elif how == "assignop":
                 r = None
             else:
@@ -365,6 +394,42 @@ def bounded_index(n, fam, seen=None):
             reasons.append(r)
         return "; ".join(sorted(set(reasons)))
     return None
+
+
+def fn_param_is_index(var_node, fam, seen):
+    """parameter of a private function: a bounded index if every call of that function in the crate passes one"""
+    root = fam.root
+    if root.get("kind") not in ("Fn", "AssocFn") or root.get("reachable_pub"):
+        return None
+    pi = None
+    for i, prm in enumerate(root["params"]):
+        if prm.get("pat") and prm["pat"].get("k") == "Bind" and prm["pat"].get("id") == var_node["id"]:
+            pi = i
+    if pi is None or (root["params"][pi].get("ty") != "usize"):
+        return None
+    tok = ("fnparam", root["path"], pi)
+    if tok in seen:
+        return "cyclic (assumed; other sources decide)"
+    seen = seen | {tok}
+    fx_ = fam.fx
+    n_calls, rs = 0, []
+    for b in fx_.bodies.values():
+        if b["krate"] != "proguard":
+            continue
+        for x in F.walk(b["body"]):
+            if x.get("k") == "Call" and "fn" in x and fx_.by_dp.get(x["fn"].get("dp")) == root["path"]:
+                n_calls += 1
+                if pi >= len(x["args"]):
+                    return None
+                r_ = bounded_index(x["args"][pi], family_of(fx_, b), seen)
+                if r_ is None:
+                    return None
+                rs.append(r_)
+            elif x.get("k") == "Zst" and "fn" in x and fx_.by_dp.get(x["fn"].get("dp")) == root["path"]:
+                return None     # used as a function value: call sites unknown
+    if not n_calls:
+        return None
+    return "parameter of a private function, bounded at all %d call site(s): %s" % (n_calls, "; ".join(sorted(set(rs))))
 
 
 def closure_param_is_index(var_node, fam):
